@@ -486,7 +486,9 @@ def run_script(ctx, sc, base, FORMS, seed):
         exp_calls = 1 if (validates and not invalid and cls in ("accept", "accept_warn", "reject", "abnormal") and okind != "corruptjar") else 0
         if okind == "corruptjar":
             exp_calls = 0  # real java: no log
-        if len(calls) != exp_calls:
+        # (a validator that is killed by the shortened watchdog may die before it has written its call record on a loaded machine: for the
+        #  'hang' outcome zero records are as good as one - how fast a process starts is not a verdict)
+        if len(calls) != exp_calls and not (okind == "hang" and len(calls) == 0):
             V(f"validator-calls:{cls}:{mk}", f"stand-in java was invoked {len(calls)}x, expected {exp_calls}x ({tag}, mode {mode}, outcome {okind}, fp {sc['fp']})")
         for c in calls:
             ctx.ctr("validator_invocations_observed")
